@@ -409,3 +409,48 @@ func verifC02_stale_writer() {
 	c.CloseNow()
 	vObserve("stale", between, stale, len(got))
 }
+
+// C02.msgtype: Write / Writer with ANY value of the MessageType parameter (it is an int): what reaches the wire is a data
+// message of type text or binary, or nothing and an error - never a control or reserved opcode chosen by the argument.
+func verifC02_msgtype() {
+	client := vParam("client", 1) == 1
+	vInstallRand()
+	t := vNewTransport(nil)
+	t.endMode = vEndBlock
+	c := vNewConn(t, client, nil, 16, 64)
+	typ := MessageType(vInt("typ", -1, 16))
+	p := vBytes("p", 2)
+	var err error
+	if vChoose("api", 2) == 0 {
+		err = c.Write(vBG, typ, p)
+	} else {
+		var w interface {
+			Write([]byte) (int, error)
+			Close() error
+		}
+		w, err = c.Writer(vBG, typ)
+		if err == nil {
+			w.Write(p)
+			err = w.Close()
+		}
+	}
+	vReach("C02.msgtype.called")
+	frames, ok := vParseWritten(t.out)
+	vAssert(ok, "C02.msgtype.wellformed")
+	valid := vOr(typ == MessageText, typ == MessageBinary)
+	for i, f := range frames {
+		if i == 0 {
+			vAssert(vOr(f.opcode == 1, f.opcode == 2), "C02.msgtype.first-frame-is-text-or-binary")
+			vAssert(f.opcode == uint8(typ), "C02.msgtype.type-as-asked")
+		} else {
+			vAssert(f.opcode == 0, "C02.msgtype.then-continuations")
+		}
+	}
+	if len(frames) == 0 {
+		vAssert(vAnd(err != nil, vNot(valid)), "C02.msgtype.nothing-sent-only-for-an-invalid-type")
+	} else {
+		vAssert(valid, "C02.msgtype.frames-only-for-a-valid-type")
+	}
+	c.CloseNow()
+	vObserve("msgtype", int(typ), len(frames))
+}
